@@ -476,7 +476,7 @@ func checkNullProg(c *NullProgCase) *Outcome {
 var c16prog = Register(&Prop[NullProgCase]{ID: "C16", Name: "programs-over-optionals", Gen: genNullProg, Check: checkNullProg})
 
 func TestC16(t *testing.T) {
-	R.Rule = "(a) enumerated: every built-in x every argument position given an optional of the required type (three instantiations of type variables; the parameter's variable optional in one or in all positions), member / subscript access on an optional, optional as index / key, list of optionals where a list of numbers is required, a default of get(optional container, default) whose elements are optional, an optional at the second place where one variable's composite type occurs in the expected type of a list / map / conditional / default - reference checker decides accept / reject, Compile must agree on three back ends, accepted ones are evaluated for present and absent payloads; (b) random well-typed programs over Go host data (structs with tagged nil / non-nil pointers, present optionals also as maybe-tagged fields of the payload's own Go type holding the payload itself (zero values included), nil slices and nil maps) that consume optionals through get(optional, default) and move them through polymorphic positions, evaluated on four back ends against the reference; one case in three supplies required bindings as untagged non-nil pointers and then gives the same Callable a value of the same Go type with one of those pointers nil, which must be refused and not evaluated; (c) Go containers (slices, arrays, maps) of structs whose pointer / slice / map fields are nil or not per element: either rejected as inconsistent or converted to a value in which every component has the type its container declares (an absent part only at an optional-typed position); non-trivial = the program mentions an optional-typed name"
+	R.Rule = "(a) enumerated: every built-in x every argument position given an optional of the required type (three instantiations of type variables; the parameter's variable optional in one or in all positions), member / subscript access on an optional, optional as index / key, list of optionals where a list of numbers is required, a default of get(optional container, default) whose elements are optional, an optional at the second place where one variable's composite type occurs in the expected type of a list / map / conditional / default - reference checker decides accept / reject, Compile must agree on three back ends, accepted ones are evaluated for present and absent payloads; (b) random well-typed programs over Go host data (structs with tagged nil / non-nil pointers, present optionals also as maybe-tagged fields of the payload's own Go type holding the payload itself (zero values included), nil slices and nil maps) that consume optionals through get(optional, default) and move them through polymorphic positions, evaluated on four back ends against the reference; one case in three supplies required bindings as untagged non-nil pointers and then gives the same Callable a value of the same Go type with one of those pointers nil, which must be refused and not evaluated; (c) Go containers (slices, arrays, maps) of structs whose pointer / slice / map fields are nil or not per element, pointers to pointers and interfaces holding pointers with the nil at the outer or at the inner level included: either rejected as inconsistent or converted to a value in which every component has the type its container declares (an absent part only at an optional-typed position); non-trivial = the program mentions an optional-typed name"
 	R.Assume = []string{"ref.Check / ref.Eval"}
 	reportKnown(t, "C16")
 	runRegress(t, "C16")
@@ -494,7 +494,9 @@ func genNilHost(t *rapid.T) *HostCase {
 	inner := &H{K: "struct"}
 	n := rapid.IntRange(1, 3).Draw(t, "ninner")
 	for i := 0; i < n; i++ {
-		ft := pick2(t, []*H{{K: "ptr", Elem: &H{K: "float64"}}, {K: "ptr", Elem: &H{K: "string"}}, {K: "slice", Elem: &H{K: "int"}}, {K: "map", KeyT: &H{K: "string"}, Elem: &H{K: "bool"}}, {K: "string"}, {K: "int"}, {K: "ptr", Elem: &H{K: "time"}}})
+		ft := pick2(t, []*H{{K: "ptr", Elem: &H{K: "float64"}}, {K: "ptr", Elem: &H{K: "string"}}, {K: "slice", Elem: &H{K: "int"}}, {K: "map", KeyT: &H{K: "string"}, Elem: &H{K: "bool"}}, {K: "string"}, {K: "int"}, {K: "ptr", Elem: &H{K: "time"}},
+			// a nil pointer that is not the outermost indirection: behind another pointer, or as the typed nil held by an interface
+			{K: "ptr", Elem: &H{K: "ptr", Elem: &H{K: "float64"}}}, {K: "iface", Elem: &H{K: "ptr", Elem: &H{K: "string"}}}, {K: "ptr", Elem: &H{K: "ptr", Elem: &H{K: "string"}}}})
 		tag := ""
 		if nilable(ft) && rapid.IntRange(0, 2).Draw(t, "tagged") == 0 {
 			tag = fmt.Sprintf(`yae:"f%d,maybe"`, i)
